@@ -25,6 +25,7 @@ import (
 	"github.com/cosmos/cosmos-sdk/simapp"
 	sdk "github.com/cosmos/cosmos-sdk/types"
 	authtypes "github.com/cosmos/cosmos-sdk/x/auth/types"
+	banktypes "github.com/cosmos/cosmos-sdk/x/bank/types"
 	vestingtypes "github.com/cosmos/cosmos-sdk/x/auth/vesting/types"
 	upgradetypes "github.com/cosmos/cosmos-sdk/x/upgrade/types"
 	"github.com/ethereum/go-ethereum/common"
@@ -38,6 +39,7 @@ import (
 
 	"github.com/teleport-network/teleport/app"
 	"github.com/teleport-network/teleport/syscontracts"
+	rvestingtypes "github.com/teleport-network/teleport/x/rvesting/types"
 )
 
 var c15lKinds = []string{"BaseAccount", "EthAccount", "ModuleAccount", "ContinuousVestingAccount", "DelayedVestingAccount", "PeriodicVestingAccount", "PermanentLockedAccount"}
@@ -154,8 +156,116 @@ func c15lProbe(kind string, a c15lAddr) (obs string, msgs map[string]string) {
 	return "v=ok init=ok upgrade=ok block=" + c15lPhase(bp, bm), msgs
 }
 
+// ---- rvesting genesis SECTION shapes: lc rv <from> <init_reward shape> <per_block_reward shape> <enable> ----------------------------
+var c15lRvShapes = []string{"empty", "sorted", "unsorted", "dup", "zero", "baddenom"}
+var c15lRvFroms = []string{"none", "funded", "unfunded", "bad"}
+
+func c15lRvCoins(shape string) sdk.Coins {
+	c := func(d string, a int64) sdk.Coin { return sdk.Coin{Denom: d, Amount: sdk.NewInt(a)} }
+	switch shape {
+	case "sorted":
+		return sdk.Coins{c("acoin", 5), c("stake", 7)}
+	case "unsorted":
+		return sdk.Coins{c("stake", 7), c("acoin", 5)}
+	case "dup":
+		return sdk.Coins{c("atele", 5), c("uxyz", 7), c("atele", 3)}
+	case "zero":
+		return sdk.Coins{c("acoin", 0)}
+	case "baddenom":
+		return sdk.Coins{c("a", 5)}
+	}
+	return sdk.Coins{}
+}
+
+func c15lRvProbe(from, ir, pbr string, enable bool) (obs string, msgs map[string]string) {
+	msgs = map[string]string{}
+	enc := encoding.MakeConfig(app.ModuleBasics)
+	ap := app.NewTeleport(log.NewNopLogger(), dbm.NewMemDB(), nil, true, map[int64]bool{}, app.DefaultNodeHome, 5, enc, simapp.EmptyAppOptions{})
+	gs := app.NewDefaultGenesisState()
+	funded := sdk.AccAddress(common.HexToAddress("0x00000000000000000000000000000000000000b1").Bytes())
+	unfunded := sdk.AccAddress(common.HexToAddress("0x00000000000000000000000000000000000000b2").Bytes())
+	var bg banktypes.GenesisState
+	enc.Marshaler.MustUnmarshalJSON(gs[banktypes.ModuleName], &bg)
+	bg.Balances = append(bg.Balances, banktypes.Balance{Address: funded.String(),
+		Coins: sdk.NewCoins(sdk.NewInt64Coin("acoin", 1000), sdk.NewInt64Coin("atele", 1000), sdk.NewInt64Coin("stake", 1000), sdk.NewInt64Coin("uxyz", 1000))})
+	gs[banktypes.ModuleName] = enc.Marshaler.MustMarshalJSON(&bg)
+	rg := rvestingtypes.GenesisState{Params: rvestingtypes.Params{EnableVesting: enable, PerBlockReward: c15lRvCoins(pbr)}, InitReward: c15lRvCoins(ir)}
+	switch from {
+	case "funded":
+		rg.From = funded.String()
+	case "unfunded":
+		rg.From = unfunded.String()
+	case "bad":
+		rg.From = "not-bech32"
+	}
+	var bz []byte
+	if p, _ := safely(func() { bz = enc.Marshaler.MustMarshalJSON(&rg) }); p {
+		return "v=err init=- block=-", msgs
+	}
+	gs[rvestingtypes.ModuleName] = bz
+	var verr error
+	if vp, vm := safely(func() { verr = app.ModuleBasics.ValidateGenesis(enc.Marshaler, enc.TxConfig, gs) }); vp {
+		msgs["validate"] = vm
+		return "v=panic init=- block=-", msgs
+	}
+	if verr != nil {
+		return "v=err init=- block=-", msgs
+	}
+	state, _ := json.Marshal(gs)
+	if ip, im := safely(func() {
+		ap.InitChain(abci.RequestInitChain{ChainId: "teleport_9000-1", Validators: []abci.ValidatorUpdate{}, ConsensusParams: app.DefaultConsensusParams, AppStateBytes: state})
+	}); ip {
+		msgs["initchain"] = im
+		return "v=ok init=panic block=-", msgs
+	}
+	bp, bm := safely(func() {
+		for h := int64(1); h <= 2; h++ {
+			hdr := tmproto.Header{Height: h, ChainID: "teleport_9000-1", Time: time.Unix(1700000000+h, 0).UTC()}
+			ctx := ap.BaseApp.NewContext(false, hdr).WithBlockGasMeter(c15FilledMeter(c15BlockGasLimit / 2))
+			ap.BeginBlocker(ctx, abci.RequestBeginBlock{Header: hdr})
+			ap.EndBlocker(ctx, abci.RequestEndBlock{Height: h})
+		}
+	})
+	if bp {
+		msgs["block"] = bm
+	}
+	return "v=ok init=ok block=" + c15lPhase(bp, bm), msgs
+}
+
+func c15lApplyRv(r *Rec, op string, f []string) {
+	if len(f) != 6 {
+		return
+	}
+	obs, msgs := c15lRvProbe(f[2], f[3], f[4], f[5] == "1")
+	r.Op(op, obs)
+	r.Nontrivial(op)
+	r.Count("lifecycle.rv.from." + f[2])
+	r.Count("lifecycle.rv.ir." + f[3])
+	r.Count("lifecycle.rv.pbr." + f[4])
+	r.Count("lifecycle.rv." + strings.Fields(obs)[0])
+	for phase, m := range msgs {
+		if phase == "validate" {
+			continue
+		}
+		if phase == "initchain" && f[2] == "unfunded" && strings.Contains(m, "insufficient funds") {
+			// what the unchanged code does: InitGenesis panic(err)s when `from` cannot pay init_reward — a fact of the bank genesis that the
+			// module's stateless validation cannot see (docs/C15.md); modelled (rvInitDoc … canPay = false), counted, not reported
+			r.Count("lifecycle.rvesting-unfunded-from")
+			continue
+		}
+		shape := fmt.Sprintf("from=%s,init_reward=%s,per_block_reward=%s,enable=%s", f[2], f[3], f[4], f[5])
+		r.Find(Finding{Sig: fmt.Sprintf("C15:lifecycle-panic:%s:rvesting-genesis:%s", phase, shape),
+			What: "a genesis accepted by ModuleBasics.ValidateGenesis with the rvesting section " + shape + " panics in phase " + phase + ": " + m,
+			Ops:  []string{op}, Obs: obs + " (" + m + ")", Req: "InitChain / BeginBlock / EndBlock of a validated genesis never panic"})
+	}
+}
+
 func c15lApply(r *Rec, op string) {
 	f := strings.Fields(op)
+	if len(f) > 1 && f[1] == "rv" {
+		c15lApplyRv(r, op, f)
+		return
+	}
 	if len(f) != 4 {
 		return
 	}
@@ -189,7 +299,20 @@ func c15lApply(r *Rec, op string) {
 	}
 }
 
+func c15lRunRv(r *Rec) {
+	for _, from := range c15lRvFroms {
+		for _, ir := range c15lRvShapes {
+			for _, pbr := range c15lRvShapes {
+				for _, en := range []string{"0", "1"} {
+					c15lApply(r, fmt.Sprintf("lc rv %s %s %s %s", from, ir, pbr, en))
+				}
+			}
+		}
+	}
+}
+
 func c15lRun(t *testing.T, r *Rec) {
+	c15lRunRv(r)
 	for _, a := range c15lAddrs() {
 		for _, kind := range c15lKinds {
 			c15lApply(r, fmt.Sprintf("lc %s %s %s", kind, a.class, a.name))
